@@ -307,7 +307,7 @@ func drive(args []string) int {
 				var cmd *exec.Cmd
 				if r.group == "race" {
 					cmd = exec.Command(bin, wargs...)
-					cmd.Env = append(os.Environ(), "GORACE=halt_on_error=0 log_path="+filepath.Join(out, fmt.Sprintf("racelog-%d", r.shard)))
+					cmd.Env = append(os.Environ(), "GORACE=halt_on_error=0 exitcode=0 log_path="+filepath.Join(out, fmt.Sprintf("racelog-%d", r.shard)))
 				} else {
 					// contain runaway allocations: address-space limit
 					sh := "ulimit -v 6000000; exec \"$0\" \"$@\""
